@@ -25,10 +25,13 @@ RULE = ('layout case = (poset: family of subsets of a k-set under inclusion in a
 EXHAUSTIVE = {
     'quick': 'layouts: all 255 non-empty families of subsets of a 3-set + concept lattices of all 682 tables n,m<=3, x '
              '{fcart c in {0.1,0.5,1} x dpth in {1,2,3}, multipartite} (each also through Mover.initialize_pos, v and h); '
-             'mover: loading and every single operation of the full alphabet on all 39 grids (<=3 levels x <=3 peers) in '
-             'both orientations x 4 key insertion orders; every history [inward jitter/place of an outermost node past '
+             'mover: loading (4 key insertion orders) and every single operation of the full alphabet (keys ascending and level by '
+             'level) on all 39 grids (<=3 levels x <=3 peers) in both orientations; every history [inward jitter/place of an outermost node past '
              '>=1 peer, any operation(, shift of that node)] on 6 grids with rows of 2-4 peers; all histories of length 2 on the '
-             'grids with <=4 nodes, all histories of length 3 on the grids with <=2 nodes',
+             'grids with <=4 nodes (full alphabet up to 3 nodes, without place and dx=+-1 on 4 nodes), length 3 on the grids with '
+             '<=2 nodes (swap, shift, jitter dx in {+-0.25,+-3}); H1: every [layout, net-zero-size remove/add/del mutation, layout] on '
+             'one poset over families of 2-3 subsets of a 3-set (every 4th for 4 subsets) x {fcart, multipartite}^2; every '
+             '[op, re-load of another diagram, op] on one mover for 5 diagram pairs, both orientations',
     'thorough': 'layouts: additionally all families of <=7 subsets of a 4-set (26332) and lattices of all tables with '
                 'n,m<=4, n*m<=12; mover: length 2 on all 39 grids, length 3 on grids with <=4 nodes, length 4 on grids '
                 'with <=2 nodes'}
@@ -39,7 +42,9 @@ EXPLANATION = ('layouts are relational (exact coordinates are not pinned): the v
                'tops = parentless elements, cover relation of a strict order) are checked on every input; mover outputs are '
                'pinned and compared with the model after every operation (1e-9 relative tolerance; generators stay on '
                'dyadic grids so float arithmetic is exact) and judged by the step oracle')
-ASSUMPTIONS = ['posets are non-empty (calc_levels raises ValueError on the empty poset: malformed stream)',
+ASSUMPTIONS = ['a re-load of positions into a used mover and a layout of a mutated poset are judged like a freshly built object '
+               'with the current content (the Lean models are pure functions of the current content)',
+               'posets are non-empty (calc_levels raises ValueError on the empty poset: malformed stream)',
                'position dictionaries have keys 0..n-1 and pairwise distinct positions',
                'node arguments of mover operations are valid indexes; place_node only judged in the vertical orientation',
                'coordinates are finite floats; NaN/inf are out of scope']
@@ -88,15 +93,61 @@ def layout_configs():
     yield dict(layout='multipartite')
 
 
+def _layout_call(P, cfg):
+    from fcapy.visualizer.line_layouts import LAYOUTS
+    kw = dict(c=cfg['c'], dpth=cfg['dpth']) if cfg['layout'] == 'fcart' else {}
+    return LAYOUTS[cfg['layout']](P, **kw)
+
+
+def apply_hist(P, hist):
+    """replay a history of PUBLIC uses/mutations on ONE poset object; returns the exceptions raised by the steps"""
+    from fcapy.visualizer.line_layouts import calc_levels
+    errs = []
+    for k, st in enumerate(hist or []):
+        try:
+            if st[0] == 'layout':
+                _layout_call(P, st[1])
+            elif st[0] == 'levels':
+                calc_levels(P)
+            elif st[0] == 'initpos':
+                from fcapy.visualizer.mover import Mover
+                Mover().initialize_pos(P, layout=st[1])
+            elif st[0] == 'add':
+                P.add(frozenset(st[1]), fill_up_cache=bool(st[2]))
+            elif st[0] == 'remove':
+                P.remove(frozenset(st[1]))
+            elif st[0] == 'del':
+                del P[st[1]]
+            elif st[0] == 'scribble':      # a hostile caller overwrites everything the library handed out
+                lv, ld = calc_levels(P)
+                lv[:] = [len(lv) + 3] * len(lv)
+                ld.clear()
+                pos = _layout_call(P, st[1])
+                for key in list(pos):
+                    pos[key] = [0.0, 0.0]
+                pos.clear()
+                pd = P.parents_dict
+                pd.clear()
+        except Exception as e:
+            errs.append([k, st[0], exc_name(e)])
+    return errs
+
+
 def build_poset(c):
     if c['ptype'] == 'subsets':
         from fcapy.poset import POSet
         sets = [frozenset(s) for s in c['elems']]
-        return POSet(sets, leq_func=lambda a, b: a <= b), sets
+        P = POSet(sets, leq_func=lambda a, b: a <= b, use_cache=c.get('use_cache', True))
+        if c.get('hist'):
+            c['_hist_err'] = apply_hist(P, c['hist'])
+            sets = [frozenset(e) for e in P.elements]
+        return P, sets
     from fcapy.context import FormalContext
     from fcapy.lattice import ConceptLattice
     K = FormalContext(data=[[bool(v) for v in r] for r in c['rows']])
     L = ConceptLattice.from_context(K)
+    if c.get('hist'):
+        c['_hist_err'] = apply_hist(L, [st for st in c['hist'] if st[0] in ('layout', 'levels', 'initpos', 'scribble')])
     return L, [frozenset(int(g) for g in L[i].extent_i) for i in range(len(L))]
 
 
@@ -134,8 +185,9 @@ def orient_pos(pts, d):
 def alphabet(n, d, full=True):
     ops = [dict(op='swap', a=a, b=b) for a in range(n) for b in range(a + 1, n)] + [dict(op='swap', a=0, b=0)]
     ops += [dict(op='shift', i=i, k=k) for i in range(n) for k in SHIFTS]
-    ops += [dict(op='jitter', i=i, dx=dx) for i in range(n) for dx in DXS]
-    if d == 'v':
+    ops += [dict(op='jitter', i=i, dx=dx) for i in range(n)
+            for dx in (DXS if full is True else (0.25, -0.25, 1.25, -1.25, 3.0, -3.0) if full == 'mid' else (0.25, -0.25, 3.0, -3.0))]
+    if d == 'v' and full is True:
         ops += [dict(op='place', i=i, x=x) for i in range(n) for x in PLACES]
     return ops
 
@@ -175,11 +227,13 @@ def mover_exhaustive(tier, boost):
             for ko in KORDERS:
                 korder = key_order(ko, pos, d)
                 yield dict(kind='mover', stream='mover-load', dir=d, pos=pos, ops=[], korder=korder)
-                if L > 1 or ko != 'asc':
+                if (L > 1 and ko == 'asc') or ko == 'bylevel' or (thorough and ko != 'asc'):
                     for op in A:
                         yield dict(kind='mover', stream='mover-exh-L1', dir=d, pos=pos, ops=[op], korder=korder)
             korder = key_order('asc' if d == 'v' else 'bylevel', pos, d)
-            for ops in itertools.product(A, repeat=L):
+            # quick: full alphabet up to 3 nodes at length 2; thinner alphabets (no place, fewer offsets) beyond
+            AL = A if (thorough or L == 1 or (L == 2 and n <= 3)) else alphabet(n, d, full='mid' if L == 2 else False)
+            for ops in itertools.product(AL, repeat=L):
                 yield dict(kind='mover', stream=f'mover-exh-L{L}', dir=d, pos=pos, ops=list(ops), korder=korder)
 
 
@@ -219,45 +273,193 @@ def mover_border_inward(tier, boost):
                                            ops=[f, op, dict(op='shift', i=f['i'], k=k)])
 
 
-def random_mover(rng, stream='mover-random'):
+def random_diagram(rng, nmax=12):
     nl = rng.randint(1, 4)
     pts, n = [], 0
     ys = rng.sample([k * 0.25 for k in range(-8, 9)], nl)
     for y in ys:
         cnt = rng.randint(1, 4)
-        if n + cnt > 12:
-            cnt = max(1, 12 - n)
+        if n + cnt > nmax:
+            cnt = max(1, nmax - n)
         for x in rng.sample([k * 0.25 for k in range(-12, 13)], cnt):
             pts.append((x, y))
         n += cnt
-        if n >= 12:
+        if n >= nmax:
             break
     rng.shuffle(pts)
-    n = len(pts)
+    return pts
+
+
+def random_korder(rng, n):
+    t = rng.random()
+    if t >= 0.6:
+        return None
+    korder = list(range(n))
+    if t < 0.2:
+        korder.reverse()
+    else:
+        rng.shuffle(korder)
+    return korder
+
+
+def random_mover(rng, stream='mover-random'):
+    """random history; in a third of the cases other random diagrams are re-loaded into the same mover on the way"""
+    pts = random_diagram(rng, 14 if rng.random() < 0.15 else 12)
     d = rng.choice('vh')
+    first, korder = orient_pos(pts, d), random_korder(rng, len(pts))
+    reloads = rng.random() < 0.35
     ops = []
     for _ in range(rng.randint(1, 20)):
+        n = len(pts)
         t = rng.random()
-        if t < 0.25:
+        if reloads and t < 0.12:
+            pts = random_diagram(rng)
+            ops.append(dict(op='load', pos=orient_pos(pts, d), korder=random_korder(rng, len(pts))))
+        elif reloads and t < 0.15:
+            ops.append(dict(op='scribble'))
+        elif t < 0.3:
             a = rng.randrange(n)
             same = [b for b in range(n) if pts[b][1] == pts[a][1]]
             b = rng.choice(same) if rng.random() < 0.85 else rng.randrange(n)
             ops.append(dict(op='swap', a=a, b=b))
-        elif t < 0.5:
+        elif t < 0.55:
             ops.append(dict(op='shift', i=rng.randrange(n), k=rng.randint(-4, 4)))
-        elif t < 0.85:
+        elif t < 0.87:
             ops.append(dict(op='jitter', i=rng.randrange(n), dx=rng.choice([k * 0.125 for k in range(-40, 41)])))
         else:
             ops.append(dict(op='place', i=rng.randrange(n), x=rng.choice([k * 0.125 for k in range(-40, 41)])))
-    korder = None
-    t = rng.random()
-    if t < 0.6:
+    return dict(kind='mover', stream=stream + ('-reload' if reloads else ''), dir=d, pos=first, ops=ops, korder=korder)
+
+
+# ------------------------------------------------------------------------------------------ re-loads (H1 for the mover)
+
+RELOAD_PAIRS = (((2, 3), None, (3, 2), None), ((2, 2), None, (2, 2), [0, 1, 2, 3]), ((1, 2), None, (2, 3), None),
+                ((2, 4), None, (1, 3), None), ((4,), None, (2, 2), None))
+
+
+def priming_ops(pts, d):
+    """operations that look at the members of a row: shifts, overtaking jitters, same-level swaps"""
+    n = len(pts)
+    ops = [dict(op='shift', i=i, k=k) for i in range(n) for k in SHIFTS]
+    ops += [dict(op='jitter', i=i, dx=dx) for i in range(n) for dx in (1.25, -1.25, 3.0, -3.0)]
+    ops += [dict(op='swap', a=a, b=b) for a in range(n) for b in range(a + 1, n) if pts[a][1] == pts[b][1]]
+    return ops
+
+
+def mover_reload_exh():
+    """load A, one operation, load B (a diagram whose levels hold other nodes / another number of nodes) into the SAME
+    mover, one operation: the second diagram must behave like one loaded into a fresh mover"""
+    for shA, pA, shB, pB in RELOAD_PAIRS:
+        ptsA, ptsB = grid_positions(shA, pA), grid_positions(shB, pB)
+        for d in ('v', 'h'):
+            posA, posB = orient_pos(ptsA, d), orient_pos(ptsB, d)
+            opsB = priming_ops(ptsB, d)
+            if d == 'v':
+                opsB += [dict(op='place', i=i, x=x) for i in range(len(ptsB)) for x in (-2.0, 2.0)]
+            load = dict(op='load', pos=posB, korder=key_order('bylevel', posB, d))
+            for o1 in priming_ops(ptsA, d):
+                for o2 in opsB:
+                    yield dict(kind='mover', stream='mover-reload', dir=d, pos=posA, korder=None, ops=[o1, load, o2])
+            back = dict(op='load', pos=posA, korder=None)
+            for o1 in priming_ops(ptsB, d)[::3]:
+                for o2 in priming_ops(ptsA, d)[::2]:
+                    yield dict(kind='mover', stream='mover-reload', dir=d, pos=posA, korder=None,
+                               ops=[load, o1, dict(op='scribble'), back, o2])
+
+
+def mover_nondyadic(rng, count):
+    """coordinates not representable in float32 / far from the unit square; only operations that re-use coordinates
+    (load, swap, shift) so that the comparison stays exact; up to 16 nodes (two-digit ids)"""
+    vals = [0.1, 0.2, 0.3, 19.99, -19.99, 2.0 ** 24 + 1, -(2.0 ** 24 + 1), 1e-9, 1 / 3, 1e6 + 0.1, -0.7, 123.456]
+    for _ in range(count):
+        nl = rng.randint(1, 4)
+        pts = []
+        for y in rng.sample(vals, nl):
+            for x in rng.sample(vals, rng.randint(1, 4)):
+                pts.append((x, y))
+        rng.shuffle(pts)
+        n, d = len(pts), rng.choice('vh')
+        ops = []
+        for _k in range(rng.randint(1, 8)):
+            t = rng.random()
+            if t < 0.4:
+                a = rng.randrange(n)
+                ops.append(dict(op='swap', a=a, b=rng.choice([b for b in range(n) if pts[b][1] == pts[a][1]])))
+            elif t < 0.9:
+                ops.append(dict(op='shift', i=rng.randrange(n), k=rng.randint(-3, 3)))
+            else:
+                ops.append(dict(op='scribble'))
         korder = list(range(n))
-        if t < 0.2:
-            korder.reverse()
-        else:
-            rng.shuffle(korder)
-    return dict(kind='mover', stream=stream, dir=d, pos=orient_pos(pts, d), ops=ops, korder=korder)
+        rng.shuffle(korder)
+        yield dict(kind='mover', stream='mover-nondyadic', dir=d, pos=orient_pos(pts, d), ops=ops, korder=korder)
+
+
+# ------------------------------------------------------------------------------------------ poset histories (H1 for the layouts)
+
+MUT_CFGS = (dict(layout='fcart', c=0.5, dpth=1), dict(layout='multipartite'))
+
+
+def layout_mutate_exh():
+    """layout -> net-zero-size mutation of the SAME poset (remove+add, add+remove, del+add; nothing laid out in
+    between) -> layout: the second layout is judged like that of a freshly built poset with the current content"""
+    sub3 = subsets_of(3)
+    k = 0
+    for r in (2, 3, 4):
+        for fam in itertools.combinations(sub3, r):
+            fam = [list(x) for x in fam]
+            for rem in fam:
+                for add in sub3:
+                    if add in fam:
+                        continue
+                    muts = ([['remove', rem], ['add', add, True]], [['add', add, True], ['remove', rem]],
+                            [['del', fam.index(rem)], ['add', add, False]])
+                    for mi, mut in enumerate(muts):
+                        for pre in MUT_CFGS:
+                            for fin in MUT_CFGS:
+                                k += 1
+                                if r == 4 and k % 4:      # the 4-element families: every fourth combination
+                                    continue
+                                if mi == 2 and pre is not fin:
+                                    continue
+                                c = dict(kind='layout', stream='layout-mutate', ptype='subsets', elems=fam,
+                                         hist=[['layout', pre]] + mut)
+                                c.update(fin)
+                                yield c
+
+
+def layout_mutate_random(rng, count):
+    """longer histories on one poset: adds / removes / dels (fill_up_cache on and off), layouts, calc_levels,
+    Mover.initialize_pos and hostile overwriting of returned values in between; use_cache on and off"""
+    for _ in range(count):
+        k = rng.randint(3, 4)
+        pool = subsets_of(k)
+        cur = rng.sample(pool, rng.randint(2, 6))
+        c = dict(kind='layout', stream='layout-mutate-random', ptype='subsets', elems=[list(x) for x in cur],
+                 use_cache=rng.random() < 0.8, hist=[])
+        for _s in range(rng.randint(2, 10)):
+            t = rng.random()
+            if t < 0.3 and len(cur) < len(pool):
+                a = rng.choice([x for x in pool if x not in cur])
+                cur.append(a)
+                c['hist'].append(['add', a, rng.random() < 0.7])
+            elif t < 0.45 and len(cur) > 1:
+                a = rng.choice(cur)
+                cur.remove(a)
+                c['hist'].append(['remove', a])
+            elif t < 0.55 and len(cur) > 1:
+                i = rng.randrange(len(cur))
+                del cur[i]
+                c['hist'].append(['del', i])
+            elif t < 0.75:
+                c['hist'].append(['layout', rng.choice(list(layout_configs()))])
+            elif t < 0.82:
+                c['hist'].append(['levels'])
+            elif t < 0.9:
+                c['hist'].append(['initpos', rng.choice(['fcart', 'multipartite'])])
+            else:
+                c['hist'].append(['scribble', rng.choice(MUT_CFGS)])
+        c.update(rng.choice(list(layout_configs())))
+        yield c
 
 
 # ------------------------------------------------------------------------------------------ generators
@@ -297,6 +499,11 @@ def gen(tier, seed, boost=False):
             yield from layout_cases_for(dict(ptype='subsets', elems=[list(s) for s in fam]), 'layout-exh-subsets3')
     for rows in G.tables_upto(3, 3):
         yield from layout_cases_for(dict(ptype='lattice', rows=rows), 'layout-exh-lattice3')
+    # --- histories on ONE object: poset mutated between two layouts; other diagrams re-loaded into a used mover
+    yield from layout_mutate_exh()
+    yield from layout_mutate_random(rng, 300 if tier == 'quick' else 5000)
+    yield from mover_reload_exh()
+    yield from mover_nondyadic(rng, 300 if tier == 'quick' else 5000)
     # --- mover: the small exhaustive scope (quick) before the large thorough/boost-only streams
     yield from mover_border_inward(tier, boost)
     yield from mover_exhaustive('quick', False)
@@ -346,9 +553,11 @@ def gen(tier, seed, boost=False):
 
 def impl_layout(c):
     from fcapy.visualizer.line_layouts import LAYOUTS, calc_levels
+    c = dict(c)
     P, sets = build_poset(c)
     n = len(P)
-    out = dict(n=n, cover=cover_parents(sets))
+    out = dict(n=n, cover=cover_parents(sets), hist_err=c.get('_hist_err') or [],
+               elems=[sorted(x) for x in sets] if c.get('hist') else None)
     try:
         out['parents'] = [sorted(int(x) for x in P.parents(i)) for i in range(n)]
         out['children'] = [sorted(int(x) for x in P.children(i)) for i in range(n)]
@@ -405,17 +614,29 @@ def read_pos(m):
     return [[fr(p[i][0]), fr(p[i][1])] for i in range(len(p))]
 
 
+def _pos_dict(pos, korder):
+    keys = korder or range(len(pos))
+    return {i: (float(pos[i][0]), float(pos[i][1])) for i in keys}
+
+
 def impl_mover(c):
     from fcapy.visualizer.mover import Mover
     try:
-        keys = c.get('korder') or range(len(c['pos']))
-        m = Mover(pos={i: (float(c['pos'][i][0]), float(c['pos'][i][1])) for i in keys}, direction=c['dir'])
+        m = Mover(pos=_pos_dict(c['pos'], c.get('korder')), direction=c['dir'])
         out = dict(init=read_pos(m), trace=[])
     except Exception as e:
         return {'err': exc_name(e)}
     for op in c['ops']:
         try:
-            mover_apply(m, op)
+            if op['op'] == 'load':          # other positions loaded into the SAME mover
+                m.pos = _pos_dict(op['pos'], op.get('korder'))
+            elif op['op'] == 'scribble':    # a hostile caller overwrites what the mover handed out
+                d = m.pos
+                for key in list(d):
+                    d[key] = (0.0, 0.0)
+                d.clear()
+            else:
+                mover_apply(m, op)
             out['trace'].append(dict(pos=read_pos(m)))
         except Exception as e:
             try:
@@ -432,17 +653,31 @@ def impl(c):
 
 # ------------------------------------------------------------------------------------------ driver requests
 
+def segments(c):
+    """a mover history split at the re-loads: [(positions, [(index in c['ops'], op), ...]), ...]"""
+    segs = [(c['pos'], [])]
+    for k, op in enumerate(c['ops']):
+        if op['op'] == 'load':
+            segs.append((op['pos'], []))
+        elif op['op'] != 'scribble':
+            segs[-1][1].append((k, op))
+    return segs
+
+
 def requests(c, io):
     if c['kind'] == 'mover':
-        ops = []
-        for op in c['ops']:
-            o = dict(op)
-            if 'dx' in o:
-                o['dx'] = fr(o['dx'])
-            if 'x' in o:
-                o['x'] = fr(o['x'])
-            ops.append(o)
-        return [dict(op='C19.mover', dir=c['dir'], pos=[[fr(x), fr(y)] for x, y in c['pos']], ops=ops)]
+        rs = []
+        for pos, kops in segments(c):      # a re-load must behave like a freshly built mover
+            ops = []
+            for _, op in kops:
+                o = dict(op)
+                if 'dx' in o:
+                    o['dx'] = fr(o['dx'])
+                if 'x' in o:
+                    o['x'] = fr(o['x'])
+                ops.append(o)
+            rs.append(dict(op='C19.mover', dir=c['dir'], pos=[[fr(x), fr(y)] for x, y in pos], ops=ops))
+        return rs
     if 'parents' not in io:
         return []
     base = dict(parents=io['parents'], children=io['children'], tops=io['tops'])
@@ -452,11 +687,46 @@ def requests(c, io):
     else:
         rs.append(dict(op='C19.check', parents=[], levels=[], pos=[]))
     if c['layout'] == 'fcart':
-        rs.append(dict(op='C19.fcart', c=fr(c['c']), dpth=c['dpth'], cover=io['cover'], **base))
+        extra = {}
+        if 'levels' in io and 'pos' in io and len(io['pos']) == len(io['levels']) == io['n']:
+            extra['idon'] = impl_ranks(io)
+        rs.append(dict(op='C19.fcart', c=fr(c['c']), dpth=c['dpth'], cover=io['cover'], **extra, **base))
     return rs
 
 
 # ------------------------------------------------------------------------------------------ judging
+
+def impl_ranks(io):
+    """id_on_lvl of the implementation, read off its x coordinates (rank of x within the level)"""
+    lv = io['levels']
+    ranks = [0] * len(lv)
+    for l in set(lv):
+        row = sorted((i for i in range(len(lv)) if lv[i] == l), key=lambda i: fl(io['pos'][i][0]))
+        for r, i in enumerate(row):
+            ranks[i] = r
+    return ranks
+
+
+def admissible_order(io, fc):
+    """is the implementation's placement an admissible run of fcart_layout?  With the exact priorities induced by the
+    implementation's OWN ranks of the higher levels (computed by the Lean model's `priority`), every level must be
+    ordered by (priority, element) up to near-ties (1e-9) of the priorities - float rounding may resolve such a
+    near-tie either way, and the choice legitimately propagates to the levels below"""
+    lv, ranks = io['levels'], impl_ranks(io)
+    pr = [None if q is None else fl(q) for q in fc['prios_impl']]
+    for l in sorted(set(lv)):
+        row = sorted((i for i in range(len(lv)) if lv[i] == l), key=lambda i: ranks[i])
+        if l == 0:
+            if row != sorted(row):
+                return False
+            continue
+        for a, b in zip(row, row[1:]):
+            if pr[a] is None or pr[b] is None:
+                return False
+            if pr[a] > pr[b] + 1e-9 * max(1.0, abs(pr[a]), abs(pr[b])):
+                return False
+    return True
+
 
 def judge_layout(c, io, rep):
     if 'where' in io:
@@ -466,9 +736,16 @@ def judge_layout(c, io, rep):
     if io['n'] == 0:   # malformed: only the exception classes are compared
         ok = io.get('levels_err') == lev.get('err') and io.get('pos_err') == lev.get('err')
         return dict(ok=ok, kind='correspondence', detail=f'empty poset: impl {io.get("levels_err")}/{io.get("pos_err")} model {lev}')
+    if io.get('hist_err'):
+        k, what, err = io['hist_err'][0]
+        if what in ('layout', 'levels', 'initpos', 'scribble'):
+            return dict(ok=False, kind='property', part='total',
+                        detail=f'step {k} {c["hist"][k]} of the history raised {err} on the poset')
+        return dict(ok=False, kind='correspondence', part='poset-mutation', detail=f'step {k} {c["hist"][k]} raised {err}')
     if 'levels_err' in io or 'pos_err' in io:
         return dict(ok=False, kind='property', part='total',
-                    detail=f'layout raised on a non-empty poset: calc_levels {io.get("levels_err")}, layout {io.get("pos_err")}')
+                    detail=f'layout raised on a non-empty poset (elements now {io.get("elems") or c.get("elems")}): '
+                           f'calc_levels {io.get("levels_err")}, layout {io.get("pos_err")}')
     if io['keys'] != list(range(io['n'])) or any(k != 2 for k in io['plen']):
         return dict(ok=False, kind='property', part='total', detail=f'positions for keys {io["keys"]} of {io["n"]} elements')
     if io.get('initpos_bad'):
@@ -479,7 +756,8 @@ def judge_layout(c, io, rep):
     if not chk['holds']:
         part = next(k for k in ('total', 'inj', 'order', 'levels') if not chk[k])
         return dict(ok=False, kind='property', part=part,
-                    detail=f'holdsLayout=false ({part}) levels={io["levels"]} pos={[[fl(x), fl(y)] for x, y in io["pos"]]}')
+                    detail=f'holdsLayout=false ({part}) levels={io["levels"]} pos={[[fl(x), fl(y)] for x, y in io["pos"]]}'
+                           + (f' for the poset {io["elems"]} reached by the history' if io.get('elems') is not None else ''))
     if io['parents'] != io['cover']:
         return dict(ok=False, kind='correspondence', part='cover',
                     detail=f'POSet.parents {io["parents"]} differ from the cover relation {io["cover"]}')
@@ -504,16 +782,12 @@ def judge_layout(c, io, rep):
         bad = [i for i, (p, q) in enumerate(zip(io['pos'], fc['pos']))
                if not (close(fl(p[0]), fl(q[0])) and close(fl(p[1]), fl(q[1])))]
         if bad:
-            # a float near-tie between two priorities may legitimately order peers differently: tolerated only when
-            # the y coordinates agree, the x coordinates of each level are the same multiset, and every differing
-            # node has a peer whose exact priority is (almost) equal to its own
+            # a float near-tie between two priorities may legitimately order peers differently (and that choice changes
+            # the priorities of the levels below): tolerated only when the y coordinates agree, the x coordinates of
+            # each level are the same multiset, and the implementation's order is an admissible run of the algorithm
             ys_ok = all(close(fl(p[1]), fl(q[1])) for p, q in zip(io['pos'], fc['pos']))
             key = lambda ps: sorted((round(fl(p[1]), 9), round(fl(p[0]), 9)) for p in ps)
-            pr = [None if q is None else fl(q) for q in fc['prios']]
-            lv = io['levels']
-            tie = all(any(j != i and lv[j] == lv[i] and pr[i] is not None and pr[j] is not None
-                          and abs(pr[i] - pr[j]) <= 1e-9 for j in range(len(lv))) for i in bad)
-            if ys_ok and key(io['pos']) == key(fc['pos']) and tie:
+            if ys_ok and key(io['pos']) == key(fc['pos']) and 'prios_impl' in fc and admissible_order(io, fc):
                 return dict(ok=True, note='near-tie')
             return dict(ok=False, kind='correspondence', part='fcart-pos',
                         detail=f'fcart positions differ from the model at {bad}: impl {[[fl(x), fl(y)] for x, y in io["pos"]]} '
@@ -592,11 +866,9 @@ def judge_mover(c, io, rep):
     want = [[float(x), float(y)] for x, y in c['pos']]
     flt = lambda ps: [[fl(x), fl(y)] for x, y in ps]
     if io['init'] is None or flt(io['init']) != want:
-        return dict(ok=False, kind='property', part='roundtrip', detail=f'Mover(pos, {c["dir"]!r}).pos = {io["init"] and flt(io["init"])} != loaded {want} '
-                                                                       f'(keys inserted in the order {c.get("korder") or "ascending"})')
-    if flt(r['init']['pos']) != want:
-        return dict(ok=False, kind='harness', detail='model round trip differs (contradicts mover_roundtrip)')
-    valid_nodes = all(0 <= o.get('i', o.get('a', 0)) < len(want) and 0 <= o.get('b', 0) < len(want) for o in c['ops'])
+        return dict(ok=False, kind='property', part='roundtrip',
+                    detail=f'Mover(pos, {c["dir"]!r}).pos = {io["init"] and flt(io["init"])} != loaded {want} '
+                           f'(keys inserted in the order {c.get("korder") or "ascending"})')
     # pass 1 - the property, judged geometrically on the implementation's own positions over the WHOLE history
     # (a disagreement with the model at an earlier step must not hide a later step that goes wrong)
     before = want
@@ -604,25 +876,46 @@ def judge_mover(c, io, rep):
         if not isinstance(st['pos'], list):
             return dict(ok=False, kind='property', part='readable', step=k, detail=f'step {k}: position unreadable {st["pos"]}')
         after = flt(st['pos'])
-        if valid_nodes:
-            bad = step_oracle(c['dir'], before, op, after, st.get('err'))
-            if bad is not None:
-                return dict(ok=False, kind='property', part=bad[0], step=k,
-                            detail=f'step {k} {op} of {c["ops"]}: {bad[1]}; positions before the step {before}')
+        if op['op'] == 'load':
+            wl = [[float(x), float(y)] for x, y in op['pos']]
+            if st.get('err') or after != wl:
+                return dict(ok=False, kind='property', part='roundtrip', step=k,
+                            detail=f'step {k}: re-loading {wl} (keys {op.get("korder") or "ascending"}) into the used mover '
+                                   f'gave {st.get("err") or after}')
+        elif op['op'] == 'scribble':
+            if st.get('err') or after != before:
+                return dict(ok=False, kind='property', part='aliasing', step=k,
+                            detail=f'step {k}: overwriting the dictionary returned by Mover.pos changed the mover: {before} -> '
+                                   f'{st.get("err") or after}')
+        else:
+            n = len(before)
+            if 0 <= op.get('i', op.get('a', 0)) < n and 0 <= op.get('b', 0) < n:
+                bad = step_oracle(c['dir'], before, op, after, st.get('err'))
+                if bad is not None:
+                    return dict(ok=False, kind='property', part=bad[0], step=k,
+                                detail=f'step {k} {op} of {[o if o["op"] != "load" else "load" for o in c["ops"]]}: {bad[1]}; '
+                                       f'positions before the step {before}')
         before = after
-    # pass 2 - correspondence with the Lean model
-    for k, (op, st, ms) in enumerate(zip(c['ops'], io['trace'], r['trace'])):
-        after = flt(st['pos'])
-        if st.get('err') != ms.get('err'):
-            if not valid_nodes and st.get('err') and ms.get('err'):
-                pass    # malformed node index: only "both raise" is compared
-            else:
-                return dict(ok=False, kind='correspondence', part='exception', step=k,
-                            detail=f'step {k} {op}: impl {st.get("err")} model {ms.get("err")}')
-        mp = flt(ms['pos'])
-        if len(mp) != len(after) or any(not (close(a[0], b[0]) and close(a[1], b[1])) for a, b in zip(after, mp)):
-            return dict(ok=False, kind='correspondence', part='model-pos', step=k,
-                        detail=f'step {k} {op}: impl {after} model {mp}')
+    # pass 2 - correspondence with the Lean model (one model run per loaded diagram)
+    for (pos, kops), r in zip(segments(c), rep):
+        wl = [[float(x), float(y)] for x, y in pos]
+        if 'err' in r or flt(r['init']['pos']) != wl:
+            return dict(ok=False, kind='harness', detail='model round trip differs (contradicts mover_roundtrip)')
+        n = len(wl)
+        for (k, op), ms in zip(kops, r['trace']):
+            st = io['trace'][k]
+            after = flt(st['pos'])
+            valid = 0 <= op.get('i', op.get('a', 0)) < n and 0 <= op.get('b', 0) < n
+            if st.get('err') != ms.get('err'):
+                if not valid and st.get('err') and ms.get('err'):
+                    pass    # malformed node index: only "both raise" is compared
+                else:
+                    return dict(ok=False, kind='correspondence', part='exception', step=k,
+                                detail=f'step {k} {op}: impl {st.get("err")} model {ms.get("err")}')
+            mp = flt(ms['pos'])
+            if len(mp) != len(after) or any(not (close(a[0], b[0]) and close(a[1], b[1])) for a, b in zip(after, mp)):
+                return dict(ok=False, kind='correspondence', part='model-pos', step=k,
+                            detail=f'step {k} {op}: impl {after} model {mp}')
     return dict(ok=True)
 
 
@@ -643,7 +936,7 @@ def nontrivial(c):
 
 def key(c):
     if c['kind'] == 'layout':
-        return ['L', c['ptype'], c.get('elems'), c.get('rows'), c['layout'], c.get('c'), c.get('dpth')]
+        return ['L', c['ptype'], c.get('elems'), c.get('rows'), c['layout'], c.get('c'), c.get('dpth'), c.get('hist'), c.get('use_cache')]
     return ['M', c['dir'], c['pos'], c['ops'], c.get('korder')]
 
 
@@ -677,6 +970,12 @@ def signature(c, io, rep, v):
 
 
 def shrink(c):
+    if c['kind'] == 'layout' and c.get('hist'):
+        for i in range(len(c['hist'])):
+            d = dict(c)
+            d['hist'] = c['hist'][:i] + c['hist'][i + 1:]
+            yield d
+        return
     if c['kind'] == 'layout':
         if c['ptype'] == 'subsets':
             for i in range(len(c['elems'])):
@@ -692,6 +991,8 @@ def shrink(c):
         d['ops'] = c['ops'][:i] + c['ops'][i + 1:]
         yield d
     n = len(c['pos'])
+    if any(o['op'] == 'load' for o in c['ops']):
+        return
     for j in range(n):
         if n > 1 and all(j not in (o.get('i'), o.get('a'), o.get('b')) for o in c['ops']):
             d = dict(c)
